@@ -183,6 +183,12 @@ func formatInput(v interface{}) (interface{}, error) {
 		return n, nil
 	case bool:
 		return n, nil
+	case *decimal.Big:
+		// a nil number is null
+		if n == nil {
+			return nil, nil
+		}
+		return n, nil
 	case nil:
 		return nil, nil
 	default:
@@ -393,6 +399,10 @@ func hasVariadicParameter(funType reflect.Type) bool {
 }
 
 func convTypeToTarget(source interface{}, target reflect.Type) (interface{}, error) {
+	if n, ok := source.(*decimal.Big); ok && n == nil {
+		// a nil number is null
+		source = nil
+	}
 	switch target.Kind() {
 	case reflect.Interface:
 		return source, nil
